@@ -8,5 +8,6 @@ CONSTANTS
   Kinds = {"ok", "bad", "stale"}
   MaxArrivals = 3
   MaxPerParty = 1
+  MaxInvalid = 3
 INVARIANT GPrint
 CHECK_DEADLOCK FALSE
